@@ -97,6 +97,9 @@ type Script struct {
 type caseCtx struct {
 	id     string
 	script Script
+	// credPrefix: how this case spells its valid credentials ("" or "Bearer "): the authenticators accept the
+	// scheme's valid credential in exactly that spelling
+	credPrefix string
 }
 
 var (
@@ -293,7 +296,12 @@ func NewAPI(reg Registry, cfg APIConfig, rec *Recorder) (http.Handler, error) {
 		f.Set(reflect.MakeFunc(ft, func(args []reflect.Value) []reflect.Value {
 			r := args[0].Interface().(*http.Request)
 			tok := args[1].String()
-			ok := tok == "valid-"+s.Key || strings.HasPrefix(tok, "valid-"+s.Key+"#")
+			// the scheme's valid credential, in the spelling this case presents it in
+			want := "valid-" + s.Key
+			if c, has := r.Context().Value(keyCase).(*caseCtx); has {
+				want = c.credPrefix + want
+			}
+			ok := tok == want || strings.HasPrefix(tok, want+"#")
 			rec.Emit(Event{"ev": "Auth", "s": s.Key, "field": fname, "tok": tok, "ok": ok, "case": caseOf(r)})
 			if !ok {
 				return []reflect.Value{reflect.Zero(tRequestPtr), reflect.ValueOf(false)}
